@@ -418,6 +418,169 @@ fn run_case(line: &str) -> Result<String, String> {
             ps.sort();
             Ok(format!("PARAMS( {} )", ps.iter().map(|x| hex(x.as_bytes())).collect::<Vec<_>>().join(" ")))
         }
+        "jsonbind" => {
+            // jsonbind <src> B( bound through a JSON object ) B( bound directly )
+            let src = unhex_str(t.next()?)?;
+            let jb = parse_binds(&mut t)?;
+            let db = parse_binds(&mut t)?;
+            fn to_json(v: &CelValue) -> Result<serde_json::Value, String> {
+                Ok(match v {
+                    CelValue::Int(i) => serde_json::Value::Number((*i).into()),
+                    CelValue::UInt(u) => serde_json::Value::Number((*u).into()),
+                    CelValue::Float(f) => serde_json::Value::Number(
+                        serde_json::Number::from_f64(*f).ok_or("BADCASE non-finite float in JSON")?,
+                    ),
+                    CelValue::Bool(b) => serde_json::Value::Bool(*b),
+                    CelValue::String(s) => serde_json::Value::String(s.clone()),
+                    CelValue::Null => serde_json::Value::Null,
+                    CelValue::List(l) => {
+                        serde_json::Value::Array(l.iter().map(to_json).collect::<Result<Vec<_>, _>>()?)
+                    }
+                    CelValue::Map(m) => {
+                        let mut o = serde_json::Map::new();
+                        for (k, x) in m.iter() {
+                            o.insert(k.clone(), to_json(x)?);
+                        }
+                        serde_json::Value::Object(o)
+                    }
+                    _ => return Err("BADCASE value has no JSON form".to_string()),
+                })
+            }
+            let mut obj = serde_json::Map::new();
+            for (k, v) in jb.iter() {
+                obj.insert(k.clone(), to_json(v)?);
+            }
+            let mut ctx = rscel::CelContext::new();
+            if let Err(e) = ctx.add_program_str("main", &src) {
+                return Ok(format!("CERR {}", print_err(&e)));
+            }
+            let mut b = rscel::BindContext::new();
+            for (k, v) in db.into_iter() {
+                b.bind_param(&k, v);
+            }
+            if let Err(e) = b.bind_params_from_json_obj(serde_json::Value::Object(obj)) {
+                return Ok(format!("BINDERR {}", print_err(&e)));
+            }
+            Ok(match ctx.exec("main", &b) {
+                Ok(v) => format!("OK {}", value_string(&v)),
+                Err(e) => format!("ERR {}", print_err(&e)),
+            })
+        }
+        "history" => {
+            // a sequence of operations over numbered contexts and binding sets
+            use std::collections::HashMap;
+            let mut ctxs: HashMap<i64, rscel::CelContext> = HashMap::new();
+            let mut binds: HashMap<i64, rscel::BindContext> = HashMap::new();
+            let mut outs: Vec<String> = Vec::new();
+            while !t.done() {
+                let op = t.next()?;
+                match op {
+                    "addp" => {
+                        let c: i64 = t.next()?.parse().map_err(|_| "num")?;
+                        let name = unhex_str(t.next()?)?;
+                        let src = unhex_str(t.next()?)?;
+                        let ctx = ctxs.entry(c).or_insert_with(rscel::CelContext::new);
+                        outs.push(match ctx.add_program_str(&name, &src) {
+                            Ok(()) => "-".to_string(),
+                            Err(e) => format!("CERR {}", print_err(&e)),
+                        });
+                    }
+                    "bind" => {
+                        let b: i64 = t.next()?.parse().map_err(|_| "num")?;
+                        let name = unhex_str(t.next()?)?;
+                        let v = parse_value(&mut t)?;
+                        binds.entry(b).or_insert_with(rscel::BindContext::new).bind_param(&name, v);
+                        outs.push("-".to_string());
+                    }
+                    "clonec" => {
+                        let f: i64 = t.next()?.parse().map_err(|_| "num")?;
+                        let to: i64 = t.next()?.parse().map_err(|_| "num")?;
+                        let c = ctxs.entry(f).or_insert_with(rscel::CelContext::new).clone();
+                        ctxs.insert(to, c);
+                        outs.push("-".to_string());
+                    }
+                    "cloneb" => {
+                        let f: i64 = t.next()?.parse().map_err(|_| "num")?;
+                        let to: i64 = t.next()?.parse().map_err(|_| "num")?;
+                        let c = binds.entry(f).or_insert_with(rscel::BindContext::new).clone();
+                        binds.insert(to, c);
+                        outs.push("-".to_string());
+                    }
+                    "exec" => {
+                        let c: i64 = t.next()?.parse().map_err(|_| "num")?;
+                        let b: i64 = t.next()?.parse().map_err(|_| "num")?;
+                        let name = unhex_str(t.next()?)?;
+                        binds.entry(b).or_insert_with(rscel::BindContext::new);
+                        let ctx = ctxs.entry(c).or_insert_with(rscel::CelContext::new);
+                        let r = ctx.exec(&name, &binds[&b]);
+                        outs.push(match r {
+                            Ok(v) => format!("OK {}", value_string(&v)),
+                            Err(e) => format!("ERR {}", print_err(&e)),
+                        });
+                    }
+                    "params" => {
+                        let c: i64 = t.next()?.parse().map_err(|_| "num")?;
+                        let name = unhex_str(t.next()?)?;
+                        let ctx = ctxs.entry(c).or_insert_with(rscel::CelContext::new);
+                        outs.push(match ctx.program_details(&name) {
+                            Some(d) => {
+                                let mut ps: Vec<String> = d.params().iter().map(|x| x.to_string()).collect();
+                                ps.sort();
+                                format!("PARAMS( {} )", ps.iter().map(|x| hex(x.as_bytes())).collect::<Vec<_>>().join(" "))
+                            }
+                            None => "NOPROG".to_string(),
+                        });
+                    }
+                    ";" => {}
+                    o => return Err(format!("history op {}", o)),
+                }
+            }
+            Ok(outs.join(" ; "))
+        }
+        "concurrent" => {
+            // concurrent <threads> <repeats> <src> B( ... ): the same program on several threads, several times
+            let nth: usize = t.next()?.parse().map_err(|_| "num")?;
+            let reps: usize = t.next()?.parse().map_err(|_| "num")?;
+            let src = unhex_str(t.next()?)?;
+            let binds = parse_binds(&mut t)?;
+            let mut handles = Vec::new();
+            for _ in 0..nth {
+                let src = src.clone();
+                let bl: Vec<(String, String)> = binds.iter().map(|(k, v)| (k.clone(), value_string(v))).collect();
+                handles.push(std::thread::spawn(move || {
+                    let mut outs = Vec::new();
+                    let mut ctx = rscel::CelContext::new();
+                    if let Err(e) = ctx.add_program_str("main", &src) {
+                        return vec![format!("CERR {}", print_err(&e))];
+                    }
+                    let ctx2 = ctx.clone();
+                    let mut b = rscel::BindContext::new();
+                    for (k, v) in bl.iter() {
+                        let mut tk = Toks::new(v);
+                        b.bind_param(k, parse_value(&mut tk).unwrap());
+                    }
+                    let b2 = b.clone();
+                    for i in 0..reps {
+                        let r = if i % 2 == 0 { ctx.exec("main", &b) } else { ctx2.clone().exec("main", &b2) };
+                        outs.push(match r {
+                            Ok(v) => format!("OK {}", value_string(&v)),
+                            Err(e) => format!("ERR {}", print_err(&e)),
+                        });
+                    }
+                    outs
+                }));
+            }
+            let mut all: Vec<String> = Vec::new();
+            for h in handles {
+                match h.join() {
+                    Ok(v) => all.extend(v),
+                    Err(_) => all.push("PANIC".to_string()),
+                }
+            }
+            let first = all[0].clone();
+            let same = all.iter().all(|x| *x == first);
+            Ok(format!("same={} n={} first={}", same, all.len(), first))
+        }
         "compile" => {
             // compile <src> -> resolved bytecode and reported params
             let src = match parse_value(&mut t)? {
